@@ -6,7 +6,7 @@ import itertools
 
 from .. import automata as A
 from .. import e1, impl, linelang, refmodel
-from ..chartgen import mk
+from ..chartgen import RAW, mk
 
 ID = "C14"
 LEVEL = "model_checking"
@@ -28,10 +28,12 @@ BASE = dict(
     events=['0 = E "section a"', '5 = E "lyric b"', '5 = E "txt"', '12 = E "lyric c d"', '30 = E "section e"'],
     track=["0 = N 0 0", "0 = N 1 4", "3 = S 2 10", "4 = E solo", "12 = N 7 2"],
 )
+# un-indented look-alikes of the structural lines: a lone brace with trailing blanks, a header-like line
+BRACES = [RAW + "{ ", RAW + "} ", RAW + "}\t", RAW + " }", RAW + "{{", RAW + "[Song]", RAW + "   ", RAW + ""]
 GARBAGE = dict(
-    sync=["", "garbage", "0 = N 0 0", '0 = E "x"', "0 = B", "0 = TS", "5 = B x", " = B 1", "5 = A", "0 = BB 1"],
-    events=["", "garbage", "0 = B 120000", "0 = E solo", "0 = N 0 0", '3 = E "unterminated', "3 = E", '= E "x"'],
-    track=["", "garbage", "2 = S 64 5", "2 = N 8 0", "2 = E two words", "0 = B 120000", '0 = E "section a"', "2 = S 2", "2 = N 0", "2 = N 0 0 0", "2 = S 1 5"],
+    sync=["", "garbage", "0 = N 0 0", '0 = E "x"', "0 = B", "0 = TS", "5 = B x", " = B 1", "5 = A", "0 = BB 1"] + BRACES,
+    events=["", "garbage", "0 = B 120000", "0 = E solo", "0 = N 0 0", '3 = E "unterminated', "3 = E", '= E "x"'] + BRACES,
+    track=["", "garbage", "2 = S 64 5", "2 = N 8 0", "2 = E two words", "0 = B 120000", '0 = E "section a"', "2 = S 2", "2 = N 0", "2 = N 0 0 0", "2 = S 1 5"] + BRACES,
 )
 
 SCRIPT = """{observe_src}
